@@ -2,6 +2,7 @@
 import json
 import os
 import random
+import re
 import subprocess
 
 from vlib import Ctx, Infra, NCPU  # noqa: F401
@@ -762,6 +763,122 @@ def c19(ctx):
     ctx.negctl_replay(["robust-replay"], summ["_first_edge"], wrong)
 
 
+# ---------------------------------------------------------------------------------------------
+# Registry / concurrency: C20
+
+def run_race(ctx, args, gomaxprocs, label):
+    """runs the -race harness; returns (summary or None, list of data-race reports)"""
+    env = dict(os.environ)
+    env.update({"VERIF_SEED": str(ctx.seed), "GOMAXPROCS": str(gomaxprocs), "GORACE": "halt_on_error=0 exitcode=66"})
+    r = subprocess.run([ctx.vh_race] + args, cwd=ctx.work, env=env, stdout=subprocess.PIPE, stderr=subprocess.PIPE,
+                       text=True, timeout=3000)
+    races = []
+    if "WARNING: DATA RACE" in r.stderr:
+        for block in r.stderr.split("WARNING: DATA RACE")[1:]:
+            fns = re.findall(r"^  (github.com/trustbloc/sidetree-go/\S+)\(\)", block, re.M)
+            races.append({"functions": fns[:4], "report": block[:1500]})
+    if r.returncode not in (0, 66):
+        # a fatal error of the runtime (concurrent map writes) is itself a finding of this property
+        if "fatal error" in r.stderr:
+            races.append({"functions": re.findall(r"(github.com/trustbloc/sidetree-go/\S+)\(", r.stderr)[:4],
+                          "report": r.stderr[:1500]})
+            return None, races
+        raise Infra("race harness %s failed (%d): %s" % (args[0], r.returncode, r.stderr[-2000:]))
+    summ = None
+    if r.stdout.strip():
+        try:
+            summ = json.loads(r.stdout.strip().splitlines()[-1])
+        except Exception:  # noqa: BLE001
+            summ = None
+    return summ, races
+
+
+def c20(ctx):
+    ctx.level = "exploration"
+    ctx.rule = ("Registry.tla: processes issuing Add / Lookup calls on a map behind a readers-writer lock, each call five "
+                "steps (invoke, acquire, access, release, return); TLC explores all interleavings and checks "
+                "MutualExclusion, MapIsSpec, LookupSeesSpec and (with fairness) CallsReturn. Binding: the harness, built "
+                "with -race, runs N goroutines of random Add / Lookup calls against the real namespace provider and "
+                "client-version registry, logs invocation and return of every call in real-time order (one atomic "
+                "counter) and TLC decides linearizability of each history (RegistryTrace: the linearization point is a "
+                "silent step TLC places between invocation and return). Stateless components: 91 jobs (Parse, Apply, "
+                "ApplyPatches, the DID transformer with 0-6 method contexts x @base, the document transformer, VDR "
+                "Create+Read+Resolve, version provider lookups) are run alone, then by G goroutines against shared "
+                "instances under GOMAXPROCS 1 / 4 / 16; every result is compared with the sequential one at once and "
+                "again after all goroutines are done; any data-race report or runtime fatal error is a violation.")
+    ctx.assumptions = ["data-race freedom is observed by the Go race detector on the schedules that occurred, not proved",
+                       "every concurrent call gets its own copy of its input (the statement speaks of distinct inputs)"]
+    ctx.build(race=True)
+    ov = {"Procs": "{1, 2, 3}", "MaxCalls": 1} if ctx.tier == "quick" else {"Procs": "{1, 2, 3}", "MaxCalls": 2}
+    ctx.tlc_check("Registry.tla", "MC_Registry.cfg", overrides=ov, label="registry model, all interleavings", timeout=3000)
+    if ctx.tier == "quick":
+        ctx.tlc_check("Registry.tla", "MC_Registry.cfg", overrides={"Procs": "{1, 2}", "MaxCalls": 2},
+                      label="registry model, 2 processes x 2 calls", timeout=3000)
+
+    def race_violation(where, races):
+        for rc in races:
+            ctx.add_violation({"kind": "data-race", "key": "data-race:" + ":".join(rc["functions"][:2]), "detail": where,
+                               "case": rc, "replay": {"kind": "none"}})
+
+    # registry histories -> TLC
+    hist = 40 if ctx.tier == "quick" else 400
+    for mp in (1, 4, 16):
+        path = os.path.join(ctx.work, "registry_trace.ndjson")
+        _, races = run_race(ctx, ["registry-trace", "-n", str(hist), "-g", "4", "-ops", "6", "-o", path], mp, "registry")
+        race_violation("registry histories, GOMAXPROCS=%d" % mp, races)
+        if not os.path.exists(path):
+            continue
+        lines = open(path).read().splitlines()
+        bad = ctx.tlc_trace("RegistryTrace.tla", "RegistryTrace.cfg", path, "registry_trace.ndjson", histories=hist,
+                            label="linearizability of %d registry histories, GOMAXPROCS=%d" % (hist, mp))
+        if bad is not None:
+            idx = min(bad, len(lines)) - 1
+            start = idx
+            while start > 0 and json.loads(lines[start]).get("event") != "Reset":
+                start -= 1
+            ev = json.loads(lines[idx])
+            ctx.add_violation({"kind": "not-linearizable", "key": "not-linearizable:%s:%s" % (ev.get("op"), ev.get("event")),
+                               "detail": "no placement of linearization points explains the history up to line %d" % bad,
+                               "case": {"history": [json.loads(x) for x in lines[start:idx + 1]]},
+                               "replay": {"kind": "none"}})
+        elif len(ctx.cov["samples"]) < 3:
+            ctx.cov["samples"].append({"registry_history": [json.loads(x) for x in lines[1:7]]})
+    # negative control: a lookup that returns a value nobody added must be rejected
+    path = os.path.join(ctx.work, "registry_trace.ndjson")
+    with open(path, "w") as f:
+        for e in [{"event": "Reset", "g": 0, "op": "", "key": 0, "val": 0, "res": 0},
+                  {"event": "Invoke", "g": 1, "op": "add", "key": 2, "val": 11, "res": 0},
+                  {"event": "Return", "g": 1, "op": "add", "key": 2, "val": 11, "res": 0},
+                  {"event": "Invoke", "g": 2, "op": "lookup", "key": 2, "val": 0, "res": 0},
+                  {"event": "Return", "g": 2, "op": "lookup", "key": 2, "val": 0, "res": 0}]:
+            f.write(json.dumps(e) + "\n")
+    got = ctx.tlc_trace("RegistryTrace.tla", "RegistryTrace.cfg", path, "registry_trace.ndjson", count=False,
+                        label="negative control: a lost update must be rejected")
+    ok = got == 5
+    ctx.cov["negative_controls"].append({"kind": "a history with a lost Add is not linearizable", "rejected_at": got, "ok": ok})
+    if not ok:
+        raise Infra("vacuous binding: the lost-update history was accepted (%s)" % got)
+
+    # stateless components under shared use
+    gs = (2, 8) if ctx.tier == "quick" else (2, 4, 16)
+    rounds = 2 if ctx.tier == "quick" else 6
+    for mp in (1, 4, 16):
+        for g in gs:
+            summ, races = run_race(ctx, ["concurrent-run", "-g", str(g), "-rounds", str(rounds)], mp, "shared")
+            race_violation("shared instances, GOMAXPROCS=%d, %d goroutines" % (mp, g), races)
+            if summ is None:
+                continue
+            ctx.cov["evaluations"] += summ["cases"]
+            ctx.cov["distinct_nontrivial"] = max(ctx.cov["distinct_nontrivial"], summ["distinct"])
+            ctx.cov["stages"].append({"stage": "shared instances, GOMAXPROCS=%d, %d goroutines" % (mp, g),
+                                      "calls": summ["cases"], "mismatches": summ["n_mismatch"], "races": len(races)})
+            for m in summ.get("mismatches") or []:
+                ctx.add_violation(m)
+            for s_ in summ.get("samples") or []:
+                if len(ctx.cov["samples"]) < 4:
+                    ctx.cov["samples"].append(s_)
+
+
 def replay(path):
     """re-execute exactly the case of a replay file against the current tree"""
     m = json.load(open(path))
@@ -840,5 +957,6 @@ CHECKS = {
     "C17": c17,
     "C18": c18,
     "C19": c19,
+    "C20": c20,
     "C12": c12,
 }
